@@ -99,6 +99,30 @@ def queries(paths):
     return body
 
 
+def read_hash(path):
+    """the function reads an input with FileComparison.HASH (the library hashes the bytes itself, chunk by chunk)"""
+    def body(b, P, log):
+        fb = realrun.load_fb()
+        with b.read_text(P(path), fb.FileComparison.HASH) as fh:
+            return len(fh.read())
+    body.label = 'readH(%s)' % path
+    return body
+
+
+def bf_hash(path, content):
+    """an output compared by HASH"""
+    def body(b, P, log):
+        fb = realrun.load_fb()
+
+        def f(bb, fn):
+            log.append('run:' + path)
+            with open(fn, 'w') as fh:
+                fh.write(content)
+        return b.build_file_with_comparison(P(path), fb.FileComparison.HASH, 'f:' + path, f)
+    body.label = 'bfH(%s)' % path
+    return body
+
+
 def seq(*bodies):
     def body(b, P, log):
         return [x(b, P, log) for x in bodies]
@@ -130,6 +154,10 @@ def scenarios():
     S['stale_dir_queries'] = dict(prior=[bf('d/old', w('0'))], threads=[bf('d/x', w('1')), queries(['d', ''])], order_sensitive=True)
     S['queries_vs_build'] = dict(threads=[bf('a/x', w('1')), queries(['a', ''])], order_sensitive=True)
     S['subbuilds'] = dict(threads=[sb(1, seq(queries(['a']), bf('a/x', w('1')))), sb(2, bf('b/y', w('2')))], order_sensitive=True)
+    # hashing in two threads at once: what one thread read must not end up in the other's digest
+    S['hash_two_inputs'] = dict(files={'in/a': 'A' * 2500, 'in/b': 'B' * 2500},
+                                threads=[sb(1, read_hash('in/a')), sb(2, read_hash('in/b'))])
+    S['hash_two_outputs'] = dict(threads=[bf_hash('a/x', 'x' * 2500), bf_hash('a/y', 'y' * 2500)])
     S['three_threads'] = dict(threads=[bf('a/x', w('1')), bf('a/y', w('2')), bf('a/z', w('3'))])
     S['dup_file'] = dict(threads=[catching(bf('a/x', w('1'), name='same')), catching(bf('a/x', w('1'), name='same'))], dup=True)
     S['dup_sub'] = dict(threads=[catching(sb(7, queries(['']))), catching(sb(7, queries([''])))], dup=True)
